@@ -168,6 +168,27 @@ impl Watch {
                 self.flag(&["C17"], format!("forbidden-kind-accepted/{}", kind_name(kind)), format!("{what} (fixed header {:#04x}): role {:?} v{} delivered {}", frame[0], self.role, v_now, evs_short(evs)));
                 return;
             }
+            // C14 without the protocol model: the locally announced limit (hook) still rules
+            if self.use_hook && v_now == 5 && kind != CONNECT && kind != CONNACK {
+                let vs = self.ep.state();
+                // size as MQTT counts it: with the Remaining Length in its minimal encoding (a
+                // forged frame may spell it with padding bytes)
+                let rl_bytes = frame[1..].iter().take(4).take_while(|b| **b & 0x80 != 0).count() + 1;
+                let rl = frame.len().saturating_sub(1 + rl_bytes);
+                let canonical = 1 + if rl < 128 { 1 } else if rl < 16384 { 2 } else if rl < 2097152 { 3 } else { 4 } + rl;
+                if canonical as u64 > vs.maximum_packet_size_recv as u64 {
+                    // (adversarial frames may be wrong in more than one way - e.g. a non-minimal
+                    // Remaining Length - so any DISCONNECT counts as the rejection here)
+                    let disc = sends.iter().any(|p| p.kind == DISCONNECT);
+                    let mut d = Pkt::new(5, DISCONNECT);
+                    d.rc = Some(0x95);
+                    let answer_fits = wire::encode(&d, self.idw).len() as u64 <= vs.maximum_packet_size_send as u64;
+                    if !delivered.is_empty() || (st_before == St::Connected && answer_fits && !disc) {
+                        self.flag(&["C14"], "oversize-received-not-rejected", format!("{what}: {} bytes exceed the local Maximum Packet Size {}: {}", canonical, vs.maximum_packet_size_recv, evs_short(evs)));
+                        return;
+                    }
+                }
+            }
             let allowed = self.m.ids.clone();
             self.common(evs, Ctx { allowed, st_before: Some(st_before), what, ..Default::default() });
             self.lenient_resync();
@@ -268,6 +289,10 @@ impl Watch {
             CONNECT => {
                 if st_before != St::Disc {
                     self.stats.hit("c17_connect_on_established");
+                    if sends.iter().any(|p| p.kind == CONNACK) {
+                        self.flag(&["C17"], "connect-on-established-acted-upon", format!("{what}: a CONNECT on an established connection was answered with a CONNACK: {}", evs_short(evs)));
+                        return;
+                    }
                     if accepted || !errored {
                         self.flag(&["C17"], "connect-on-established-accepted", format!("{what}: {}", evs_short(evs)));
                         return;
